@@ -4,6 +4,7 @@ import Cardutil.Props.C03
 import Cardutil.Gen.Config
 import Cardutil.Gen.PyTables
 import Cardutil.Gen.Limits
+import Cardutil.Props.C02
 /-
   C17 — file inspection recognises writer output: validity, encoding family, blocking.
 
@@ -175,5 +176,96 @@ theorem C17_encoding_ebcdic (mti : Bytes) (hl : mti ≠ []) (h : ∀ b ∈ mti, 
 #guard block1014Check (List.replicate 1012 32 ++ [64, 64]) == true
 #guard block1014Check (List.replicate 1012 32 ++ [64, 64] ++ List.replicate 1013 32) == false
 #guard block1014Check ((List.replicate 1012 32 ++ [64, 64] ++ List.replicate 1012 32 ++ [64, 64] ++ List.replicate 800 1).take 2500) == true
+
+end Cardutil.Props.C17
+
+namespace Cardutil.Props.C17
+
+open Cardutil Cardutil.Block Cardutil.Info Cardutil.Iso
+
+/-! ### the link to the writer: what an IPM file written by the library looks like at its start -/
+
+/-- the first 24 bytes of a blocked stream are the first 24 bytes of the data (24 ≤ 1012) -/
+theorem blockify_take24 (d : Bytes) (h : 24 ≤ d.length) : (blockify 1012 d).take 24 = d.take 24 := by
+  rw [blockify]
+  have h0 : d.length ≠ 0 := by omega
+  simp only [h0, if_false]
+  split
+  · rw [List.append_assoc, List.take_append_of_le_length (by simp [List.length_take]; omega), List.take_take]
+    congr 1
+  · rw [List.append_assoc, List.take_append_of_le_length (by omega)]
+
+/-- sample facts shared by both formats: a file that starts with `be32 n ++ mti ++ bitmap` where
+    `n` is within the maximum, the bitmap flags configured elements only and the MTI is four digit
+    bytes of one family is reported valid with that family -/
+theorem info_of_start (cfgBits : List Nat) (maxLen : Nat) (file : Bytes) (n : Nat) (mti bitmap : Bytes)
+    (hn : n ≤ maxLen) (hn32 : n < 4294967296) (hm : mti.length = 4) (hb : bitmap.length = 16)
+    (hstart : file.take 24 = be32 n ++ (mti ++ bitmap))
+    (hbits : ∀ b ∈ presentBits bitmap, b ∈ cfgBits) :
+    ∃ blk, ipmInfo cfgBits maxLen Gen.latin1Numeric Gen.cp037Numeric file =
+      .valid blk (encodingCheck Gen.latin1Numeric Gen.cp037Numeric mti) := by
+  have hlen24 : 24 ≤ file.length := by
+    have := congrArg List.length hstart
+    simp only [List.length_take, List.length_append, be32_length, hm, hb] at this
+    omega
+  have hs24 : (file.take 2500).take 24 = be32 n ++ (mti ++ bitmap) := by
+    rw [List.take_take]; exact hstart
+  have h4 : (file.take 2500).take 4 = be32 n := by
+    have : ((file.take 2500).take 24).take 4 = be32 n := by rw [hs24]; exact List.take_left' (be32_length n)
+    rwa [List.take_take] at this
+  have hm4 : ((file.take 2500).drop 4).take 4 = mti := by
+    have : (((file.take 2500).take 24).drop 4).take 4 = mti := by
+      rw [hs24, List.drop_left' (be32_length n)]; exact List.take_left' hm
+    rw [List.drop_take, List.take_take] at this
+    exact this
+  have hb16 : ((file.take 2500).drop 8).take 16 = bitmap := by
+    have : (((file.take 2500).take 24).drop 8).take 16 = bitmap := by
+      rw [hs24, ← List.append_assoc, List.drop_left' (by simp [be32_length, hm])]
+      exact List.take_of_length_le (by omega)
+    rw [List.drop_take, List.take_take] at this
+    exact this
+  unfold ipmInfo ipmInfoP
+  have h1 : ¬ (file.take 2500).length < 24 := by rw [List.length_take]; omega
+  have hdec : be32dec (be32 n) = n := be32dec_be32 (by unfold lim32; exact hn32)
+  have h3 : bitmapCheck cfgBits bitmap = none := by
+    unfold bitmapCheck
+    rw [List.find?_eq_none]
+    intro b hb'
+    simp [hbits b hb']
+  simp only []
+  rw [if_neg h1, h4, hdec, if_neg (by omega), hb16, h3, hm4]
+  exact ⟨_, rfl⟩
+
+/-- C17(f): every IPM file written by the library's writer (unblocked), whose first message was
+    encoded by `encodeCore` under a configuration whose elements are all known to the inspector and
+    is within the maximum record length, is reported VALID with the encoding family of its MTI digits -/
+theorem C17_writer_output_valid_unblocked (env : Env) (cfg : Config) (m : Dict) (rec1 : Bytes) (others : List Bytes)
+    (maxLen : Nat) (hmax : maxLen < 4294967296)
+    (henc : encodeCore env cfg false m = .ok rec1) (hlen : rec1.length ≤ maxLen)
+    (cfgBits : List Nat) (hcfg : ∀ b, (∃ f, cfg.get b = some f) → b ∈ cfgBits)
+    (mti : Bytes) (hmti : encodeMti env m = .ok mti) (hm4 : mti.length = 4) :
+    ∃ blk, ipmInfo cfgBits maxLen Gen.latin1Numeric Gen.cp037Numeric (Writer.listToBytes 1012 false (rec1 :: others)) =
+      .valid blk (encodingCheck Gen.latin1Numeric Gen.cp037Numeric mti) := by
+  obtain ⟨mti', pres, data, hm', hbits, hbs, _, _, _⟩ := C02.C02_message_layout env cfg false m rec1 henc
+  rw [hmti] at hm'
+  injection hm' with e
+  subst e
+  simp only [Bool.false_eq_true, if_false] at hbs
+  have hbl : (bytesOfBits (flagsOf pres)).length = 16 := bitmapOf_length pres
+  obtain ⟨hsub, hpres, _, parts, _, _, hparts⟩ := C02.C02_elements_in_order env cfg m allBits pres data hbits
+  apply info_of_start cfgBits maxLen _ rec1.length mti (bytesOfBits (flagsOf pres)) hlen (by omega) hm4 hbl
+  · rw [C03.C03_layout_unblocked, vbsBytes_cons, hbs]
+    simp only [List.append_assoc]
+    rw [List.take_append, List.take_of_length_le (by simp [be32_length])]
+    simp only [be32_length]
+    rw [List.take_append, List.take_of_length_le (by omega), hm4,
+      List.take_append, List.take_of_length_le (by omega), hbl]
+    simp
+  · intro b hb
+    rw [← bitmapOf_eq, presentBits_bitmapOf_sublist pres hsub] at hb
+    -- an emitted element has a configuration
+    obtain ⟨i, hi, rfl⟩ := List.getElem_of_mem hb
+    obtain ⟨f, v, hf, _, _⟩ := hparts i hi (by omega)
+    exact hcfg _ ⟨f, hf⟩
 
 end Cardutil.Props.C17
